@@ -4,9 +4,9 @@ import (
 	"fmt"
 	"go/constant"
 	"go/token"
-	"strconv"
 	"go/types"
 	"sort"
+	"strconv"
 	"strings"
 
 	"golang.org/x/tools/go/ssa"
@@ -621,10 +621,10 @@ func (p Path) Mentions(match func(atom string) bool) bool {
 
 // EnumOpts bound and shape an enumeration.
 type EnumOpts struct {
-	Start  *ssa.BasicBlock                // default entry
-	Leave  func(b *ssa.BasicBlock) bool   // blocks at which a path ends with EndKind "leave"
-	Effect func(in ssa.Instruction) bool  // instructions recorded as effects
-	Max    int                            // path bound (default 4096)
+	Start  *ssa.BasicBlock               // default entry
+	Leave  func(b *ssa.BasicBlock) bool  // blocks at which a path ends with EndKind "leave"
+	Effect func(in ssa.Instruction) bool // instructions recorded as effects
+	Max    int                           // path bound (default 4096)
 }
 
 // ErrTooManyPaths is returned when the bound is exceeded: the rule is undecided.
@@ -659,7 +659,7 @@ func EnumPaths(fn *ssa.Function, o EnumOpts) ([]Path, error) {
 			}
 		}
 		out = append(out, Path{
-			Ret: ret,
+			Ret:     ret,
 			Lits:    append([]Lit(nil), lits...),
 			Effects: append([]ssa.Instruction(nil), effs...),
 			EffAt:   append([]int(nil), effAt...),
